@@ -58,10 +58,12 @@ pub fn panic_sig(stage: &str, msg: &str) -> String {
 
 /// Construct + encode under catch_unwind; returns per record (output, encode result).
 pub fn exercise(s: &str, recs: &[Rec]) -> Result<Vec<(String, bool)>, Failure> {
+    let panics_before = panics_on_this_thread();
     let enc = match catch(|| PatternEncoder::new(s)) {
         Ok(e) => e,
         Err(p) => return fail(panic_sig("construct", &p), format!("PatternEncoder::new({:?}) panicked: {}", s, p)),
     };
+    ensure!(panics_on_this_thread() == panics_before, "C11:panic:caught-inside", "PatternEncoder::new({:?}) raised a panic and caught it again by itself (the panic hook ran): with panic = \"abort\" or a hook that aborts, that ends the process", s);
     let mut outs = vec![];
     if absurd_width(s) {
         return Ok(outs);
@@ -75,6 +77,7 @@ pub fn exercise(s: &str, recs: &[Rec]) -> Result<Vec<(String, bool)>, Failure> {
         };
         match catch(|| encode_limited(&enc, rec, script, Some(1 << 20))) {
             Ok((w, res)) => {
+                ensure!(panics_on_this_thread() == panics_before, "C11:panic:caught-inside", "encoding with pattern {:?} raised a panic and caught it again by itself (the panic hook ran)", s);
                 let bytes = w.bytes();
                 let out = match String::from_utf8(bytes) {
                     Ok(o) => o,
@@ -429,6 +432,32 @@ pub fn teardown_child(c: &Teardown, obs: &mut Obs) -> CaseResult {
     Ok(())
 }
 
+/// The process's stderr is a pipe nobody reads any more (a supervisor that went away, `2>&1 | head`): whatever the
+/// library likes to say there about a broken pattern, saying it must not end in a panic.
+pub fn broken_stderr_child(c: &Teardown, obs: &mut Obs) -> CaseResult {
+    unsafe {
+        let mut fds = [0i32; 2];
+        if libc::pipe(fds.as_mut_ptr()) == 0 {
+            libc::dup2(fds[1], 2);
+            libc::close(fds[0]);
+            libc::close(fds[1]);
+        }
+    }
+    let recs = vec![Rec { level: 2, msg: vec!["hello".into()], target: "app".into(), module: Some("m".into()), file: None, line: Some(7), mdc: vec![] }];
+    for p in &c.patterns {
+        exercise(p, &recs)?;
+        obs.sub_evals += 1;
+    }
+    obs.nontrivial = true;
+    obs.class("stderr-is-a-broken-pipe");
+    Ok(())
+}
+
+pub fn check_broken_stderr(tmp: &std::path::Path, c: &Teardown, obs: &mut Obs) -> CaseResult {
+    let out = crate::child::call_child(tmp, "c11stderr", c, &[], std::time::Duration::from_secs(60));
+    crate::child::absorb(out, obs)
+}
+
 pub fn check_teardown(tmp: &std::path::Path, c: &Teardown, obs: &mut Obs) -> CaseResult {
     let out = crate::child::call_child(tmp, "c11tls", c, &[], std::time::Duration::from_secs(60));
     crate::child::absorb(out, obs)
@@ -439,6 +468,11 @@ pub fn run(run: &Run) {
         let t = run.tmp.clone();
         let pats: Vec<String> = ["{I}", "{thread_id}|{l}|{m}", "{P}|{pid}", "{h({l})} {m}{n}", "{d(%Y)(utc)}", "{t}|{M}|{f}|{L}", "{({I}):>12}|{m:<5.5}", "{i}"].iter().map(|s| s.to_string()).collect();
         run.eval_one("thread-exit", &Teardown { patterns: pats }, &move |c: &Teardown, o: &mut Obs| check_teardown(&t, c, o));
+    }
+    if run.worker.0 == 1 % run.worker.1 {
+        let t = run.tmp.clone();
+        let pats: Vec<String> = ["{m", "{nosuch}", "{d(%Q)}", "{d(%Y)(mars)}", "{m:99999999999999999999999}", "{X}", "{l} }", "{h(}", "{m:>}", "{d(%Y)(utc)(x)}", "{l} {m}{n}", "}", "{(a)(b)}", "{D(}"].iter().map(|s| s.to_string()).collect();
+        run.eval_one("broken-stderr", &Teardown { patterns: pats }, &move |c: &Teardown, o: &mut Obs| check_broken_stderr(&t, c, o));
     }
     run.run_replays::<Str>("exhaustive", &check_str);
     if sweep_date_directives(run) {
@@ -460,6 +494,13 @@ pub fn replay(part: &str, case: serde_json::Value) -> Option<CaseResult> {
         "exhaustive" | "date-directives" => Some(check_str(&serde_json::from_value(case).ok()?, &mut Obs::default())),
         "broken" => Some(check_broken(&serde_json::from_value(case).ok()?, &mut Obs::default())),
         "soup" => Some(check_soup(&serde_json::from_value(case).ok()?, &mut Obs::default())),
+        "broken-stderr" => {
+            let tmp = std::env::temp_dir().join(format!("lv-replay-{}", std::process::id()));
+            std::fs::create_dir_all(&tmp).ok()?;
+            let r = check_broken_stderr(&tmp, &serde_json::from_value(case).ok()?, &mut Obs::default());
+            let _ = std::fs::remove_dir_all(&tmp);
+            Some(r)
+        }
         "thread-exit" => {
             let tmp = std::env::temp_dir().join(format!("lv-replay-{}", std::process::id()));
             std::fs::create_dir_all(&tmp).ok()?;
@@ -474,7 +515,7 @@ pub fn replay(part: &str, case: serde_json::Value) -> Option<CaseResult> {
 pub fn meta() -> EvidenceMeta {
     EvidenceMeta {
         level: "exploration",
-        rule: "three sources, each under both build profiles (overflow checks on/off): (1) exhaustive: every string over the 14 syntax symbols up to the length bound; (2) broken: generated valid pattern AST (rendered by the reference) + one of 54 breaker tokens (lone special, unknown formatter, wrong arity, bad zone, unterminated formatter, malformed spec) + generated suffix: output must start with the reference rendering of the prefix and show {ERROR: after it, or encode must return Err; (3) soup: arbitrary Unicode strings, token soup incl. 20-digit widths and strftime fragments, and 1-3 character edits of valid patterns. Oracle everywhere: catch_unwind around PatternEncoder::new and encode never unwinds; output valid UTF-8. Encoding is skipped when an explicit digit run exceeds 4096 (sanity bound of the statement). non-trivial = output holds both an error marker and other text, or a digit run >= 10 digits, or a % inside a date argument; distinct = FNV hash".into(),
+        rule: "three sources, each under both build profiles (overflow checks on/off): (1) exhaustive: every string over the 14 syntax symbols up to the length bound; (2) broken: generated valid pattern AST (rendered by the reference) + one of 54 breaker tokens (lone special, unknown formatter, wrong arity, bad zone, unterminated formatter, malformed spec) + generated suffix: output must start with the reference rendering of the prefix and show {ERROR: after it, or encode must return Err; (3) soup: arbitrary Unicode strings, token soup incl. 20-digit widths and strftime fragments, and 1-3 character edits of valid patterns. Oracle everywhere: catch_unwind around PatternEncoder::new and encode never unwinds; output valid UTF-8. Encoding is skipped when an explicit digit run exceeds 4096 (sanity bound of the statement). A panic that the library raises and catches again by itself counts as a panic (the harness's panic hook counts them per thread). Part broken-stderr: fourteen broken and valid patterns constructed and encoded in a child process whose stderr is a pipe nobody reads. non-trivial = output holds both an error marker and other text, or a digit run >= 10 digits, or a % inside a date argument; distinct = FNV hash".into(),
         assumptions: vec!["panics are observed through catch_unwind (aborts would kill the worker: exit 2)".into()],
         mutants_caught: vec![],
     }
